@@ -116,7 +116,9 @@ def dotIndexPositive (name : List Char) : Bool :=
 def serverStore (body : Bytes) (name : List Char) (contentType extMime : List Char) (gz : Bool) : Stored :=
   let srvExtMime := if dotIndexPositive name then extMime else []
   let mimeType := if contentType ≠ [] ∧ contentType ≠ octet ∧ srvExtMime ≠ contentType then contentType else []
-  { data := body, compressed := gz,
+  -- an empty blob is written without flags, name and mime (C01: needle version 2/3 body is omitted when DataSize = 0);
+  -- name/mime below are the request needle's values, which the upload answer reports
+  { data := body, compressed := gz && !body.isEmpty,
     name := if name.length < 256 then name else [],
     mime := if mimeType.length < 256 then mimeType else [] }
 
